@@ -514,6 +514,18 @@ func deriveTripCount(loop *Loop) {
 	if len(exitBlock.Instrs) == 0 {
 		return
 	}
+	// The closed forms count how often the exit test holds. That is the number of
+	// iterations only if the test is evaluated in every iteration, i.e. if the exiting
+	// block dominates every back edge. With `if i%2 == 0 { continue }` in front of
+	// `if i >= n { break }` the loop runs past n.
+	for b := range loop.Blocks {
+		for _, succ := range b.Succs {
+			if succ == loop.Header && !exitBlock.Dominates(b) {
+				loop.TripCount = &SCEVUnknown{Value: nil}
+				return
+			}
+		}
+	}
 	ifInstr, ok := exitBlock.Instrs[len(exitBlock.Instrs)-1].(*ssa.If)
 	if !ok {
 		return
